@@ -1651,6 +1651,8 @@ def check_enc(cx):
         kinds = x86ref.kinds_of(want)
         wmn = t.split()[0]
         for o in opts:
+            if ",i=4," in want and not (o & 4):
+                continue      # [base+rsp] under the STRICT swap option: the documented literal form, not judged
             rc, b = res[(o, t.encode())]
             if rc != "0" or b == "-":
                 is_sup = kinds in sup.get(wmn, set())
@@ -2057,9 +2059,19 @@ def check_C19(cx):
         if bad and len(body) > 12:
             body = b"bogus rax\n" + body[10:]
         return body
+    def content_last_byte_matters(size):
+        """the file ends, without newline, in an instruction whose last character is significant"""
+        for tail in (b"mov rcx, 0x1234567", b"add rax, 0x17", b"push r12", b"ret"):
+            if size >= len(tail) + 1:
+                head = content_of(size - len(tail), True)
+                if head and not head.endswith(b"\n"):
+                    head = head[:-1] + b"\n"
+                return head + tail
+        return content_of(size, False)
     for n, size in enumerate(sizes):
         for nl in (False, True):
             files.append(("f%d_%d" % (n, nl), content_of(size, nl)))
+        files.append(("e%d" % n, content_last_byte_matters(size)))
     for n in range(6 if quick else 40):
         files.append(("bad%d" % n, content_of(r.choice([30, 200, page, page + 5]), True, bad=True)))
     for n in range(8 if quick else 60):
@@ -2075,8 +2087,8 @@ def check_C19(cx):
         start = r.choice([0, 0, 7, 100])
         c = r.choice([2, 5, 16, 64])
         h = ["N 0 -", "N 1 -"] + setopt + ["O 0 %d" % start, "O 1 %d" % start,
-             "R 0 %s %s" % (path, cases.hexs(content)), "A 1 %s" % cases.hexs(content), "D 0 0 400", "D 1 0 400",
-             "U 0 %d %s %s 1" % (c, path, cases.hexs(content)), "C 1 %d %s 1" % (c, cases.hexs(content)), "D 0 0 600", "D 1 0 600",
+             "R 0 %s %s" % (path, cases.hexs(content)), "A 1 %s" % cases.hexs(content), "D 0 0 6000", "D 1 0 6000",
+             "U 0 %d %s %s 1" % (c, path, cases.hexs(content)), "C 1 %d %s 1" % (c, cases.hexs(content)), "D 0 0 6000", "D 1 0 6000",
              "F 0", "F 1"]
         hists.append(h)
         meta.append((nm, len(content)))
